@@ -303,6 +303,7 @@ func TestC04(t *testing.T) {
 	useRecorder(rec)
 	defer func() { t.Log(rec.Summary()); fmt.Print(rec.SurveyReport()) }()
 	types := fmTypes(nil)
+	requireUsable(t, types, 300)
 	rec.Extra("types", len(types))
 	runTypeCases(t, rec, "gcase", types, ev.N(60000, 1500000), 4, genOpts{requiredProb: 9, maxMap: 3}, oracleC04)
 }
@@ -313,6 +314,7 @@ func TestC05(t *testing.T) {
 	useRecorder(rec)
 	defer func() { t.Log(rec.Summary()); fmt.Print(rec.SurveyReport()) }()
 	types := fmTypes(nil)
+	requireUsable(t, types, 300)
 	rec.Extra("types", len(types))
 	runTypeCases(t, rec, "gcase", types, ev.N(60000, 1500000), 5, genOpts{requiredProb: 10, maxMap: 3}, oracleC05)
 }
